@@ -22,7 +22,7 @@ for l in txt.split("\n"):
     else:
         if stop.match(l) or not l.strip(): break
         acc.append(l)
-meta = {"property": pid, "id": "%s-%s" % (pid, m), "round": 2,
+meta = {"property": pid, "id": "%s-%s" % (pid, m), "round": int(m[1:]) // 2 + (1 if int(m[1:]) % 2 else 0),
         "origin": "fresh sub-agent given only the property text and a scratch worktree of /repo",
         "summary": txt.strip().split("\n")[0][:300],
         "needs_to_manifest": " ".join(" ".join(acc).split()) if acc else None,
